@@ -34,6 +34,10 @@ inductive Raise where
   | withCode (c : Int)
   /-- `MP_INFEAS(msg)` = `MP_RAISE_WITH_CODE(200, …)` -/
   | infeas
+  /-- `MP_INFEAS` raised while a constraint is converted / a result is propagated: caught by
+      `ConstraintKeeper::{PropagateResult, ConvertAllNewWith, …}`'s `catch (const std::exception&)` and
+      re-raised with `MP_RAISE(prefix + what())` — the code 200 is lost -/
+  | wrappedInfeas
   /-- solution check with `sol:chk:fail`: `MP_RAISE_WITH_CODE(sol::MP_SOLUTION_CHECK = 150, …)` -/
   | solCheck
   /-- `MP_UNSUPPORTED`, `MakeUnsupportedError`, `UnsupportedError("fmt", args…)`:
@@ -70,6 +74,7 @@ def Raise.toExn : Raise → Exn
   | .plain => .mpError (-1)
   | .withCode c => .mpError c
   | .infeas => .mpError 200
+  | .wrappedInfeas => .mpError (-1)
   | .solCheck => .mpError 150
   | .unsupported => .mpError EXIT_FAILURE
   | .optionError => .mpError (-1)
@@ -92,6 +97,10 @@ inductive Stage where
   /-- `OnHeader`: after `MakeProperSolutionHandler`, while parsing solver options and checking
       `objno`, *before* `NLProblemBuilder::OnHeader` populates the problem -/
   | options
+  /-- inside `NLProblemBuilder::OnHeader` (`AddVariables`, `AddObjs`, `AddAlgebraicCons` …): the
+      problem is being populated from the header numbers; an inconsistent header makes it throw
+      (`MP_ASSERT_ALWAYS`, `std::length_error`) with the problem *partially* populated -/
+  | populate
   /-- `NLProblemBuilder::OnHeader` done; rest of the NL file -/
   | body
   /-- `.col` / `.row` -/
@@ -101,8 +110,11 @@ inductive Stage where
   /-- `InputExtras`, `SetupTimerAndInterrupter`, `ExportModel` -/
   | extras
   | solve
-  /-- `Report()` up to the call of `HandleSolution` (postsolve, solution check, suffixes) -/
+  /-- `Report()` up to the call of `HandleSolution` (postsolve, solution check) -/
   | report
+  /-- `ReportSuffixes()`: `ReportStandardSuffixes`/`ReportCustomSuffixes` run inside
+      `try { … } catch (const std::exception&)`, which turns the exception into a warning -/
+  | suffixes
 deriving Repr, DecidableEq
 
 /-- Is the program point inside `BackendApp::Run`'s try block? -/
@@ -118,7 +130,7 @@ def Stage.handlerAvailable : Stage → Bool
 /-- Has `NLProblemBuilder::OnHeader` populated the problem (so that
 `builder.num_vars()`/`num_algebraic_cons()` are the header's numbers)? -/
 def Stage.dimsKnown : Stage → Bool
-  | .ctor | .init | .openNL | .header | .options => false
+  | .ctor | .init | .openNL | .header | .options | .populate => false
   | _ => true
 
 /-- One command-line flag before the stub (`mp::ParseOptions` over `SolverAppOptionParser`'s list). -/
@@ -180,6 +192,9 @@ structure Scenario where
   /-- `objno` given and larger than the header's number of objectives -/
   objnoTooBig : Bool
   dims : Dims
+  /-- what `builder.num_algebraic_cons()/num_vars()` return if `NLProblemBuilder::OnHeader` throws
+      half-way (only used for a fault at stage `populate`) -/
+  partialDims : Dims
   out : OutPath
   /-- first exception raised by anything *other than* flag / option parsing, if any,
       and where (`ctor` … `report`); `options` here means a raise inside the option-parsing
@@ -286,7 +301,7 @@ def reportError (ampl : Bool) (wantsol : Nat) (out : OutPath) (handler : Bool) (
 def fail (ampl : Bool) (wantsol : Nat) (sc : Scenario) (st : Stage) (r : Raise) : Outcome :=
   if st.insideRun then
     reportError ampl wantsol sc.out st.handlerAvailable
-      (if st.dimsKnown then sc.dims else ⟨0, 0⟩) r.toExn
+      (if st.dimsKnown then sc.dims else if st = .populate then sc.partialDims else ⟨0, 0⟩) r.toExn
   else
     match r.toExn with                       -- RunBackendApp's own catch clauses
     | .mpError c => .stderrExit (exitStatus c)
@@ -295,8 +310,8 @@ def fail (ampl : Bool) (wantsol : Nat) (sc : Scenario) (st : Stage) (r : Raise) 
 
 /-- Does the fault (if any) strike at or before stage `st`? (stages are in execution order) -/
 def Stage.idx : Stage → Nat
-  | .ctor => 0 | .init => 1 | .openNL => 2 | .header => 3 | .options => 4 | .body => 5
-  | .names => 6 | .convert => 7 | .extras => 8 | .solve => 9 | .report => 10
+  | .ctor => 0 | .init => 1 | .openNL => 2 | .header => 3 | .options => 4 | .populate => 5 | .body => 6
+  | .names => 7 | .convert => 8 | .extras => 9 | .solve => 10 | .report => 11 | .suffixes => 12
 
 def faultBefore (sc : Scenario) (limit : Nat) : Option (Stage × Raise) :=
   match sc.fault with
@@ -343,7 +358,9 @@ def ending (sc : Scenario) : Ending :=
   if sc.objnoTooBig then .raised ampl w .options .optionError else
   -- body … report
   match sc.fault with
-  | some (st, r) => .raised ampl w st r
+  | some (st, r) =>
+    -- StdBackend::ReportSuffixes swallows every std::exception (adds a warning)
+    if st = .suffixes ∧ r ≠ .foreign then .finished ampl w else .raised ampl w st r
   | none => .finished ampl w
 
 /-- What the process leaves behind, given how the run ends. -/
@@ -378,6 +395,7 @@ deriving Repr, DecidableEq
 
 def Raise.cause : Raise → Cause
   | .infeas => .infeasible
+  | .wrappedInfeas => .infeasible
   | .withCode c => if c ≥ 0 then .asRaised c else .failure
   | .solCheck => .asRaised 150
   | _ => .failure
